@@ -344,9 +344,10 @@ fn matrix(rng: &mut Rng, cfg: &CfgLine, keys: &BTreeSet<String>, tables: &Tables
 
 /// Key-management requests whose persistence step fails once (an injected fault on the PUT of the
 /// primary's metadata object), the identical retry, then a crash or a clean restart — after which the
-/// complete matrix is replayed against the acknowledged bindings. After a failure that is NOT retried
-/// the process is always stopped at once: a failed `set` followed by *other* management calls is the
-/// separately recorded finding `ack-not-durable:failed-set-resurfaces` (corpus 12, notes/C14.md).
+/// complete matrix is replayed against the acknowledged bindings. Also: a failure that is NOT retried,
+/// followed by other management requests (the shape of the former finding
+/// `ack-not-durable:failed-set-resurfaces`, repaired in /repo 5c65d83; corpus 12 is its regression).
+/// Faults whose PUT landed (`fault2`) are not generated: see corpus 13 (pending) and notes/C14.md.
 fn fault_scenarios(g: &mut Gen, out: &mut Vec<Op>) {
     let cfg = g.cfg.clone();
     let rounds = 1 + g.rng.below(3);
@@ -355,9 +356,7 @@ fn fault_scenarios(g: &mut Gen, out: &mut Vec<Op>) {
         let kind = g.rng.below(6);
         // which PUT of the primary's metadata fails: the first one, rarely the second (a request that does
         // only one such PUT then passes and the fault hits the retry instead); db.create with a key does up to three
-        // (a FAILED request for a server-generated key leaves a key nobody knows in the engine's copy: it is
-        // only generated where the failure is the first attempt and a clean restart cannot persist it)
-        let k = if kind == 5 { g.rng.below(3) as usize } else if kind != 2 && g.rng.chance(1, 6) { 1 } else { 0 };
+        let k = if kind == 5 { g.rng.below(3) as usize } else if g.rng.chance(1, 6) { 1 } else { 0 };
         // make sure the database exists (and sometimes carries a key to revoke / rotate away)
         let f0 = g.fresh();
         let key0 = if g.rng.chance(2, 3) { Some(g.new_key(n)) } else { None };
@@ -405,9 +404,24 @@ fn fault_scenarios(g: &mut Gen, out: &mut Vec<Op>) {
             out.push(again);
         }
         out.push(Op::NoFault);
-        if kind == 2 && !retried {
-            out.push(Op::Crash);
-            continue;
+        if !retried && g.rng.chance(1, 2) {
+            // the failure is NOT retried and the admin goes on with other management requests (each of
+            // which writes the whole metadata object): the rejected change must not become durable
+            for _ in 0..1 + g.rng.below(3) {
+                let f = g.fresh();
+                let other = *g.rng.pick(&[NAME_A, NAME_B, NAME_C]);
+                let op = match g.rng.below(5) {
+                    0 => admin_req(&cfg, "db.connect", Some(NAME_C), None, &f),
+                    1 => admin_req(&cfg, "db.close", Some(other), None, &f),
+                    2 => admin_req(&cfg, "db.remove_api_key", Some(n), None, &f),
+                    3 => admin_req(&cfg, "db.remove_api_key", Some(other), None, &f),
+                    _ => {
+                        let nk = g.new_key(other);
+                        admin_req(&cfg, "db.set_api_key", Some(other), Some(&nk), &f)
+                    }
+                };
+                out.push(op);
+            }
         }
         match (retried, g.rng.below(4)) {
             (false, 0 | 1) | (true, 0 | 1) => out.push(Op::Crash),
@@ -582,9 +596,9 @@ pub fn run_case(lines: &[String], driver: Option<&std::path::Path>, tables: &Tab
                     }
                 }
             }
-            Op::Fault(k) => {
+            Op::Fault(k) | Op::Fault2(k) => {
                 if let Some(w) = world.as_mut() {
-                    w.arm_fault(*k);
+                    if matches!(op, Op::Fault2(_)) { w.arm_fault2(*k) } else { w.arm_fault(*k) }
                     res.hit("op:fault");
                     if let Some(m) = model.as_mut() {
                         let out = m.ask(line);
